@@ -66,7 +66,8 @@ def main() -> None:
         "engines": [
             {"name": "sa", "path": "/verif/sa", "serves_properties": [c["property_id"] for c in checks],
              "kind_free_text": "repository-specific static analyser on stdlib ast: program index (C3 MRO, annotation "
-                               "typing, class-hierarchy call resolution), per-function CFG with guard edges and "
+                               "typing, class-hierarchy call resolution; a syntactic normal form that splices extracted helpers, new constants and "
+                               "hoisted attribute chains back and unifies equivalent spellings), per-function CFG with guard edges and "
                                "must-pass/dominator/count queries, who-may-write/who-may-call inventories, request-tree "
                                "reconstruction, finite-domain guard evaluation, in-memory mutant overlays for self-test"}
         ],
@@ -76,7 +77,7 @@ def main() -> None:
                  "+ VIOLATION line = a rule instance fails that is not listed in known_findings.json, exit 2 + "
                  "ANALYSIS-ERROR = anchor vanished / idiom not recognised (fail-closed, not a violation). The thorough "
                  "tier adds the self-test corpus (breaking variants must be detected, benign twins must stay silent) and "
-                 "verdict invariance under thirteen whole-repository behaviour-preserving rewrites (sa/invariance.py), all "
+                 "verdict invariance under fifteen whole-repository behaviour-preserving rewrites (sa/invariance.py), all "
                  "analysed as in-memory overlays - PrimAITE code is never executed by any check.",
     }
     with open(os.path.join(ROOT, "MANIFEST.json"), "w") as fh:
